@@ -397,3 +397,63 @@ func init() {
 		r.Floor("C02.7", 1)
 	})
 }
+
+func init() {
+	reg := registry["C02"]
+	reg.Meta.Rules["C02.8"] = "a failed attribute write or delete is reported: on the write/delete paths of the root package no error of a callee is swallowed, converted or discarded (an unreported failure makes an unsuccessful write count as the last successful one)"
+	reg.Rules = append(reg.Rules, func(c *Ctx, r *Result) {
+		var roots []*ssa.Function
+		for _, n := range []string{"hdf5.DatasetWriter.WriteAttribute", "hdf5.DatasetWriter.DeleteAttribute", "hdf5.GroupWriter.WriteAttribute", "hdf5.GroupWriter.DeleteAttribute"} {
+			if f := c.FnOpt(n); f != nil {
+				roots = append(roots, f)
+			}
+		}
+		if len(roots) < 2 {
+			r.Errorf("C02.8: attribute API roots not found")
+			return
+		}
+		set := c.Reach(roots, func(f *ssa.Function) bool { return shortPkg(fnPkgPath(f)) != "hdf5" })
+		var fns []*ssa.Function
+		for f := range set {
+			if shortPkg(fnPkgPath(f)) == "hdf5" && f.Blocks != nil {
+				fns = append(fns, f)
+			}
+		}
+		sort.Slice(fns, func(i, j int) bool { return c.Name(fns[i]) < c.Name(fns[j]) })
+		n := 0
+		for _, s := range c.ErrSites(fns) {
+			if infallibleCallee(s.Callee) {
+				continue
+			}
+			cons := c.Name(s.Caller) + "#" + s.Callee + "#" + s.Kind
+			pos := c.InstrPos(s.Call)
+			switch s.Kind {
+			case ErrPropagated, ErrEOFTol:
+				n++
+				r.Hold("C02.8", cons, pos, "")
+			case ErrEscapes:
+				r.Undec("C02.8", cons, pos, "error stored in a field / captured variable; not followed")
+			case ErrDiscarded, ErrDeferred:
+				if closeLike(s.Callee) {
+					continue
+				}
+				n++
+				r.Viol("C02.8", cons, pos, s.Detail)
+			default:
+				n++
+				if reason, ok := exceptionFor("C17", "C17.2", cons); ok {
+					r.Except("C02.8", cons, pos, "same site as C17.2: "+reason)
+					continue
+				}
+				if reason, ok := c.nameSearchSkip(s); ok {
+					r.Except("C02.8", cons, pos, reason)
+					continue
+				}
+				r.Viol("C02.8", cons, pos, s.Detail)
+			}
+		}
+		if n < 40 {
+			r.Errorf("C02.8: only %d error-returning call sites on the attribute write/delete paths", n)
+		}
+	})
+}
